@@ -8,6 +8,7 @@ import (
 	"strconv"
 	"strings"
 	"testing"
+	"time"
 
 	"github.com/AliceO2Group/Control/apricot/local"
 	apricotpb "github.com/AliceO2Group/Control/apricot/protos"
@@ -64,6 +65,9 @@ type ResolveCase struct {
 	Entry     string   //
 	Pattern   int      // bit0 exact, bit1 ANY/role, bit2 rt/any, bit3 ANY/any
 	Noise     []string // other entry paths (component/RT/role/entry) that exist and must not matter
+	// the store is changed behind the running service (a second existence pattern) and the same query is resolved again
+	Pattern2 int // -1: no second round
+	Mtime    int // file backend: the rewritten file's modification time is 0 = whatever the write gives, 1 = exactly the old one, 2 = older
 }
 
 type kvset map[string]string // path below o2/components/ -> payload
@@ -112,9 +116,10 @@ func buildStore(c ResolveCase) kvset {
 }
 
 type backend struct {
-	svc    *local.Service
-	close  func()
-	consul *simworld.FakeConsul
+	svc     *local.Service
+	close   func()
+	consul  *simworld.FakeConsul
+	rewrite func(kv kvset, mtime int) error // replace the whole content behind the running service
 }
 
 func nested(kv kvset) map[string]interface{} {
@@ -174,7 +179,31 @@ func openBackend(kind string, kv kvset) (*backend, error) {
 		if err != nil {
 			return nil, err
 		}
-		return &backend{svc: svc, close: func() { os.Remove(p) }}, nil
+		rewrite := func(kv kvset, mtime int) error {
+			st, err := os.Stat(p)
+			if err != nil {
+				return err
+			}
+			root := nested(kv)
+			if len(kv) == 0 {
+				root = map[string]interface{}{"o2": map[string]interface{}{"components": map[string]interface{}{}}}
+			}
+			b, err := yaml.Marshal(root)
+			if err != nil {
+				return err
+			}
+			if err := os.WriteFile(p, b, 0o644); err != nil {
+				return err
+			}
+			switch mtime {
+			case 1:
+				return os.Chtimes(p, st.ModTime(), st.ModTime())
+			case 2:
+				return os.Chtimes(p, st.ModTime().Add(-time.Hour), st.ModTime().Add(-time.Hour))
+			}
+			return nil
+		}
+		return &backend{svc: svc, close: func() { os.Remove(p) }, rewrite: rewrite}, nil
 	default:
 		fc := simworld.NewFakeConsul()
 		for k, v := range kv {
@@ -185,7 +214,18 @@ func openBackend(kind string, kv kvset) (*backend, error) {
 			fc.Close()
 			return nil, err
 		}
-		return &backend{svc: svc, close: fc.Close, consul: fc}, nil
+		prev := kv
+		rewrite := func(kv kvset, _ int) error {
+			for k := range prev {
+				fc.Delete("o2/components/" + k)
+			}
+			for k, v := range kv {
+				fc.Put("o2/components/"+k, v)
+			}
+			prev = kv
+			return nil
+		}
+		return &backend{svc: svc, close: fc.Close, consul: fc, rewrite: rewrite}, nil
 	}
 }
 
@@ -197,6 +237,33 @@ func runResolve(c ResolveCase) (res vh.Result) {
 		return
 	}
 	defer be.close()
+	res = resolveRound(c, be, kv)
+	if res.Violation != "" || res.Inconclusive != "" || c.Pattern2 < 0 {
+		return
+	}
+	// second round: the content changes behind the running service
+	c2 := c
+	c2.Pattern = c.Pattern2 % 16
+	kv2 := buildStore(c2)
+	for k, v := range kv2 {
+		kv2[k] = v + "-second"
+	}
+	if err := be.rewrite(kv2, c.Mtime); err != nil {
+		res.Inconclusive = "rewrite: " + err.Error()
+		return
+	}
+	r2 := resolveRound(c2, be, kv2)
+	r2.Classes = append(res.Classes, "store-changed-behind-the-service", fmt.Sprintf("rewritten-mtime:%d", c.Mtime))
+	r2.NonTrivial = true
+	if r2.Violation != "" {
+		r2.Violation = fmt.Sprintf("after the store was rewritten behind the running service (pattern %04b -> %04b, mtime mode %d): %s", c.Pattern, c2.Pattern, c.Mtime, r2.Violation)
+		r2.Signature = "stale:" + r2.Signature
+	}
+	return r2
+}
+
+func resolveRound(c ResolveCase, be *backend, kv kvset) (res vh.Result) {
+	var err error
 	cand := candidates(c)
 	// oracle: first existing candidate in documented order
 	want := -1
@@ -269,6 +336,11 @@ func genResolve(t *rapid.T) ResolveCase {
 		Role:      genName().Draw(t, "role"),
 		Entry:     genEntry().Draw(t, "entry"),
 		Pattern:   rapid.IntRange(0, 15).Draw(t, "pattern"),
+		Pattern2:  -1,
+	}
+	if rapid.Bool().Draw(t, "secondRound") {
+		c.Pattern2 = rapid.IntRange(0, 15).Draw(t, "pattern2")
+		c.Mtime = rapid.IntRange(0, 2).Draw(t, "mtime")
 	}
 	n := rapid.IntRange(0, 4).Draw(t, "noise")
 	for i := 0; i < n; i++ {
@@ -298,7 +370,7 @@ func TestResolveExhaustive(t *testing.T) {
 	for _, be := range []string{"file", "consul"} {
 		for _, tp := range tuples {
 			for pat := 0; pat < 16; pat++ {
-				c := ResolveCase{Backend: be, Component: tp[0], RunType: tp[1], Role: tp[2], Entry: tp[3], Pattern: pat,
+				c := ResolveCase{Backend: be, Component: tp[0], RunType: tp[1], Role: tp[2], Entry: tp[3], Pattern: pat, Pattern2: 15 - pat, Mtime: pat % 3,
 					Noise: []string{tp[0] + "/TECHNICAL/other/" + tp[3], "zz/" + tp[1] + "/" + tp[2] + "/" + tp[3]}}
 				vh.Fixed(t, prop, fmt.Sprintf("%s-%s-%s-%04b", be, tp[0], tp[1], pat), c, runResolve)
 				n++
